@@ -219,6 +219,19 @@ class ExtVal:
         return "<external %s>" % self.qn
 
 
+class Property:
+    """value of `property(fget, fset, fdel)` (call form; also what `p.setter(f)` / `p.getter(f)` / `p.deleter(f)` return): read through an
+    instance, it is the result of fget(instance)"""
+
+    def __init__(self, fget=None, fset=None, fdel=None):
+        self.fget = fget
+        self.fset = fset
+        self.fdel = fdel
+
+    def __repr__(self):
+        return "<property %r>" % (self.fget,)
+
+
 class Partial:
     def __init__(self, func, args, kwargs):
         self.func = func
@@ -447,7 +460,8 @@ class Interp:
             return bool(v)
         if isinstance(v, Obj):
             for dunder in ("__bool__", "__len__"):
-                m = self._class_method(v, dunder)
+                # a rule-supplied dunder (a symbolic collaborator that is an empty collection, ...) or the one of the object's class
+                m = v.methods.get(dunder) or self._class_method(v, dunder)
                 if m is not None:
                     return bool(self.call(m, [], {}))
             return True
@@ -463,7 +477,7 @@ class Interp:
         if isinstance(v, Iter):
             return self._guard_iter(v.it)
         if isinstance(v, Obj):
-            m = self._class_method(v, "__iter__")
+            m = v.methods.get("__iter__") or self._class_method(v, "__iter__")
             if m is not None:
                 return self.iterate(self.call(m, [], {}))
             if not v.open_:
@@ -523,10 +537,20 @@ class Interp:
                         return f
                     if decos == ["classmethod"]:
                         return Bound(f, ClassVal(v.cls))
+                    if decos in (["%s.setter" % name], ["%s.deleter" % name]):
+                        # `@property def x` followed by `@x.setter def x`: the attribute is the property, read through its getter
+                        g = self._property_getter(fi, name)
+                        if g is not None:
+                            return self.call(Bound(g, v), [], {})
                     refuse("decorated method %s.%s" % (v.cls, name))
                 ex, ci = self.prog.class_attr(v.cls, name)
                 if ex is not None:
-                    return self.class_attr_value(ci, name, ex)
+                    val = self.class_attr_value(ci, name, ex)
+                    if isinstance(val, Property):
+                        if val.fget is None:
+                            self.throw("AttributeError", "property %s has no getter" % name)
+                        return self.call(val.fget, [v], {})
+                    return val
                 ga = self.prog.lookup_method(v.cls, "__getattr__")
                 if ga is not None and name not in v.absent and not (name.startswith("__") and name.endswith("__")):
                     return self.call(Bound(self.func_of(ga), v), [name], {})
@@ -554,7 +578,12 @@ class Interp:
                 return _EXT_CONSTS[q]
             return ExtVal(q)
         if isinstance(v, ClassVal):
+            sub = v.qn + "." + name
+            if sub in self.stubs:
+                return self.stubs[sub]
             if v.qn in self.prog.classes:
+                if sub in self.prog.classes:
+                    return ClassVal(sub)  # a class defined inside the class
                 fi = self.prog.lookup_method(v.qn, name)
                 if fi is not None:
                     decos = [ast.unparse(d) for d in fi.node.decorator_list]
@@ -589,6 +618,20 @@ class Interp:
             if name == "__name__":
                 return v.name
             refuse("attribute %s of the type %s" % (name, v.name))
+        if isinstance(v, Property):
+            if name in ("fget", "fset", "fdel"):
+                return getattr(v, name)
+            if name in ("getter", "setter", "deleter"):
+                slot = {"getter": "fget", "setter": "fset", "deleter": "fdel"}[name]
+
+                def with_(it, a, k, _p=v, _slot=slot):
+                    parts = {"fget": _p.fget, "fset": _p.fset, "fdel": _p.fdel}
+                    parts[_slot] = a[0] if a else None
+                    return Property(**parts)
+                return Builtin("property.%s" % name, with_)
+            if name == "__doc__":
+                return Opaque("property.__doc__")
+            refuse("attribute %s of a property object" % name)
         if isinstance(v, (Func, Bound, Builtin, Partial, PyMethod)):
             if name == "__name__" and isinstance(v, Func):
                 return v.name
@@ -609,10 +652,40 @@ class Interp:
             self.throw("AttributeError", name)
         refuse("attribute %s of %r" % (name, v))
 
+    def _property_getter(self, fi, name):
+        """the `@property def <name>` of the class that defines the method `fi` (a later `@<name>.setter def <name>` replaced it in the index)"""
+        ci = fi.cls
+        if ci is None:
+            return None
+        for st in ci.node.body:
+            if isinstance(st, (ast.FunctionDef, ast.AsyncFunctionDef)) and st.name == name and [ast.unparse(d) for d in st.decorator_list] in (["property"], ["functools.cached_property"], ["cached_property"]):
+                return Func(st, None, fi.module, owner=ci.qn)
+        return None
+
     def class_attr_value(self, ci, name, ex):
+        """value of a class-level attribute; the expression sees the other names of the class body (functions defined there, other
+        class-level attributes, nested classes) and the module's globals"""
         key = (ci.qn, name)
         if key not in self._clsattr:
-            self._clsattr[key] = self.ev(ex, Env(None, ci.module))
+            busy = self.__dict__.setdefault("_clsattr_busy", set())
+            if key in busy:
+                refuse("the class attribute %s.%s, defined in several steps in terms of itself" % (ci.qn, name))
+            busy.add(key)
+            try:
+                env = Env(None, ci.module)
+                for n in ast.walk(ex):
+                    if isinstance(n, ast.Name) and isinstance(n.ctx, ast.Load) and n.id not in env.vars:
+                        for st in ci.node.body:
+                            if isinstance(st, (ast.FunctionDef, ast.AsyncFunctionDef)) and st.name == n.id:
+                                if [ast.unparse(d) for d in st.decorator_list] in ([], ["staticmethod"]):
+                                    env.vars[n.id] = Func(st, None, ci.module, owner=ci.qn)
+                            elif isinstance(st, ast.ClassDef) and st.name == n.id and ci.qn + "." + n.id in self.prog.classes:
+                                env.vars[n.id] = ClassVal(ci.qn + "." + n.id)
+                        if n.id not in env.vars and n.id in ci.attrs:
+                            env.vars[n.id] = self.class_attr_value(ci, n.id, ci.attrs[n.id])
+                self._clsattr[key] = self.ev(ex, env)
+            finally:
+                busy.discard(key)
         return self._clsattr[key]
 
     def hasattr_(self, v, name):
@@ -624,8 +697,42 @@ class Interp:
                 return False
             raise
 
+    def _class_property(self, clsqn, name):
+        """the property (data descriptor) the class defines under `name`, in decorator or call form, else None"""
+        key = (clsqn, name)
+        cache = self.__dict__.setdefault("_propcache", {})
+        if key not in cache:
+            found = None
+            fi = self.prog.lookup_method(clsqn, name)
+            if fi is not None and fi.cls is not None:
+                parts = {}
+                for st in fi.cls.node.body:
+                    if isinstance(st, (ast.FunctionDef, ast.AsyncFunctionDef)) and st.name == name:
+                        decos = [ast.unparse(d) for d in st.decorator_list]
+                        slot = {"property": "fget", "%s.getter" % name: "fget", "%s.setter" % name: "fset", "%s.deleter" % name: "fdel"}.get(decos[0] if len(decos) == 1 else None)
+                        if slot:
+                            parts[slot] = Func(st, None, fi.module, owner=fi.cls.qn)
+                if "fget" in parts:
+                    found = Property(**parts)
+            else:
+                ex, ci = self.prog.class_attr(clsqn, name)
+                if isinstance(ex, ast.Call) and isinstance(ex.func, ast.Name) and ex.func.id == "property":
+                    val = self.class_attr_value(ci, name, ex)
+                    if isinstance(val, Property):
+                        found = val
+            cache[key] = found
+        return cache[key]
+
     def setattr_(self, v, name, value):
         if isinstance(v, Obj):
+            if v.cls is not None and name not in v.methods:
+                prop = self._class_property(v.cls, name)
+                if prop is not None:
+                    # a property is a data descriptor: assignment through an instance runs its setter
+                    if prop.fset is None:
+                        self.throw("AttributeError", "property %s has no setter" % name)
+                    self.call(prop.fset, [v, value], {})
+                    return
             v.attrs[name] = value
             v.absent.discard(name)
             return
@@ -796,6 +903,8 @@ class Interp:
         if q in self.prog.classes:
             mro = self.prog.mro(q)
             if any(b.split(".")[-1] in ("Enum", "IntEnum", "Flag", "IntFlag") for b in mro):
+                if len(args) == 1 and not kwargs and isinstance(args[0], Obj) and args[0].cls is not None and self.prog.is_subclass(args[0].cls, q):
+                    return args[0]  # E(member) is that member
                 refuse("construction of the enumeration %s" % q)
             o = Obj(cls=q, label="%s#%d" % (q.split(".")[-1], self.steps))
             init = self.prog.lookup_method(q, "__init__")
@@ -1096,8 +1205,10 @@ class Interp:
                 self.throw("TypeError", "argument of type %r is not iterable" % type(r).__name__)
             return res if op is ast.In else not res
         if op in (ast.Eq, ast.NotEq):
-            if isinstance(l, Obj) and self._class_method(l, "__eq__") is not None:
-                res = self.truth(self.call(self._class_method(l, "__eq__"), [r], {}))
+            if isinstance(l, Obj) and (l.methods.get("__eq__") or self._class_method(l, "__eq__")) is not None:
+                res = self.truth(self.call(l.methods.get("__eq__") or self._class_method(l, "__eq__"), [r], {}))
+            elif isinstance(r, Obj) and not isinstance(l, Obj) and r.methods.get("__eq__") is not None:
+                res = self.truth(self.call(r.methods["__eq__"], [l], {}))  # reflected comparison with a rule-supplied value object
             else:
                 res = self._py(lambda: l == r)
             return bool(res) if op is ast.Eq else not res
@@ -1155,7 +1266,7 @@ class Interp:
         if isinstance(v, Opaque):
             return Opaque("%s[...]" % v.label)
         if isinstance(v, Obj):
-            m = self._class_method(v, "__getitem__")
+            m = v.methods.get("__getitem__") or self._class_method(v, "__getitem__")
             if m is None:
                 refuse("subscript of the symbolic object %s" % v.label)
             return self.call(m, [k], {})
@@ -1257,7 +1368,7 @@ class Interp:
                 for x in t.elts:
                     self.assign(x.value if isinstance(x, ast.Starred) else x, Opaque("%s[i]" % v.label), env)
                 return
-            if isinstance(v, (Obj,)) and self._class_method(v, "__iter__") is None:
+            if isinstance(v, (Obj,)) and "__iter__" not in v.methods and self._class_method(v, "__iter__") is None:
                 self.throw("TypeError", "cannot unpack non-iterable object")
             if not isinstance(v, _CONCRETE_ITER + (Iter, Obj)):
                 self.throw("TypeError", "cannot unpack non-iterable %s" % type(v).__name__)
@@ -1694,7 +1805,7 @@ _BUILTINS = {
 def _len(it, a, k):
     (v,) = a
     if isinstance(v, Obj):
-        m = it._class_method(v, "__len__")
+        m = v.methods.get("__len__") or it._class_method(v, "__len__")
         if m is None:
             it.throw("TypeError", "object has no len()")
         return it.call(m, [], {})
@@ -1766,6 +1877,17 @@ def _vars(it, a, k):
         if a[0].private_absent:
             return a[0].attrs
     refuse("vars() of %r" % (a[0] if a else None,))
+
+
+@_b("property")
+def _property(it, a, k):
+    names = ("fget", "fset", "fdel", "doc")
+    vals = dict(zip(names, a))
+    for n_, v_ in k.items():
+        if n_ not in names or n_ in vals:
+            it.throw("TypeError", "property() got an unexpected argument %r" % n_)
+        vals[n_] = v_
+    return Property(vals.get("fget"), vals.get("fset"), vals.get("fdel"))
 
 
 @_b("callable")
@@ -2003,6 +2125,18 @@ def _quote(it, a, k):
     return Opaque("quote(...)")
 
 
+def _shallow_obj(o):
+    """copy.copy of a symbolic object: a new object of the same kind whose attribute table is a copy (the attribute values are shared)"""
+    import copy as _copy
+    n = _copy.copy(o)
+    n.attrs = type(o.attrs)(o.attrs)
+    n.methods = dict(o.methods)
+    n.absent = set(o.absent)
+    n.open_names = set(o.open_names)
+    n.label = "copy of " + o.label
+    return n
+
+
 _EXTERNALS = {
     "contextlib.suppress": lambda it, a, k: Suppress(list(a)),
     "collections.OrderedDict": lambda it, a, k: it.construct_builtin(_BUILTINS["dict"], a, k),
@@ -2019,7 +2153,7 @@ _EXTERNALS = {
     "operator.not_": lambda it, a, k: not it.truth(a[0]),
     "operator.add": lambda it, a, k: it.binop(ast.Add, a[0], a[1]),
     "operator.getitem": lambda it, a, k: it.getitem(a[0], a[1]),
-    "copy.copy": lambda it, a, k: (a[0].copy() if isinstance(a[0], (list, dict, set)) else a[0] if isinstance(a[0], _SCALARS + (tuple, frozenset)) else refuse("copy.copy of %r" % (a[0],))),
+    "copy.copy": lambda it, a, k: (a[0].copy() if isinstance(a[0], (list, dict, set)) else a[0] if isinstance(a[0], _SCALARS + (tuple, frozenset)) else _shallow_obj(a[0]) if isinstance(a[0], Obj) else refuse("copy.copy of %r" % (a[0],))),
 }
 
 
